@@ -125,7 +125,7 @@ def gen_annot_tree(rng, depth, dt, shape=None):
         return true_leaf(rng, n, dt)
     free = shape is None
     pool = ["Scaled", "Sum", "Transpose", "Adjoint"] + (["Product", "Gram", "Sliced"] if m == n else []) + \
-        (["Kronecker", "BlockDiag", "Product", "Gram"] if free else [])
+        (["Kronecker", "BlockDiag", "Product", "Gram", "KronSum"] if free else [])
     k = S.pick(rng, pool)
     d = depth - 1
     if k == "Scaled":
@@ -158,14 +158,14 @@ def gen_annot_tree(rng, depth, dt, shape=None):
         inner = S.pick(rng, [lambda: true_leaf(rng, n, dt, "plain", m=mm), lambda: true_leaf(rng, n, dt, "Stiefel", m=mm),
                              lambda: true_leaf(rng, n, dt, "Unitary"), lambda: gen_annot_tree(rng, 0, dt, (n, n))])()
         return gram_extras(rng, {"k": "Gram", "form": S.pick(rng, ["TA", "HA", "AT", "AH"]), "same": bool(rng.random() < 0.7), "arg": inner}, dt, True)
-    if k in ("Kronecker", "BlockDiag"):
-        name = S.pick(rng, ["SelfAdjoint", "PSD", "Unitary", "Stiefel", "plain", "mixed"])
+    if k in ("Kronecker", "BlockDiag", "KronSum"):
+        name = S.pick(rng, ["SelfAdjoint", "PSD", "Unitary", "Stiefel", "plain", "mixed"] if k != "KronSum" else ["SelfAdjoint", "PSD", "Unitary", "Unitary", "builtin", "mixed"])
         args = []
         for _ in range(int(rng.integers(2, 4))):
             nn = int(rng.integers(1, 4))
             nm = S.pick(rng, ["SelfAdjoint", "PSD", "Unitary"]) if name == "mixed" else name
             args.append(true_leaf(rng, nn, dt, nm) if rng.random() < 0.8 else gen_annot_tree(rng, d, dt, (nn, nn)))
-        node = {"k": k, "via": "ctor", "args": args}
+        node = {"k": k, "via": "ctor" if k != "KronSum" else S.pick(rng, ["ctor", "fn"]), "args": args}
         if k == "BlockDiag" and rng.random() < 0.5:
             node["mult"] = [int(rng.integers(1, 3)) for _ in args]
         return node
